@@ -10,10 +10,13 @@
    here: every definition takes [idk] as a parameter).  An identity message is
    [{ikey; idecl}]: the key and the SELF-DECLARED deprecated field
    ServerIdentity.ID, which the sender is free to fill with anything.  The
-   pinned code consults the declared field both when a set is stored
+   code as originally pinned consulted the declared field both when a set is stored
    (validPeers.set: newPeers[peer.ID]) and when a peer is looked up
-   (validPeers.isValid: peers[peer.ID]); the planned fix F25 consults GetID().
-   [fix_f25 = false] is the pinned behaviour, [true] the fixed one. *)
+   (validPeers.isValid: peers[peer.ID]); defect F25, repaired in /repo by commit
+   ff36148 "fix: valid peers are filtered on the id derived from the public key",
+   which consults GetID().  [fix_f25 = false] is the behaviour before that commit
+   (kept so that the refutation witnesses stay regression cases), [true] the
+   behaviour of /repo now; Corr/C17.v selects [true]. *)
 From Coq Require Import List Arith Bool.
 Import ListNotations.
 
